@@ -110,6 +110,10 @@ def run(pid, tier, ev=None, vd=None, finish=True):
                                            + (" (accepted when List replies are not constrained)" if i in relaxed_ok else "")),
                              {"kind": "hub-history", "record": rc, "list_only": i in relaxed_ok})
             if pid == "C10":
+                if i not in accepted and i not in relaxed_ok and any(e["t"] == "call" and not e["op"]["valid"] for e in rc["events"]):
+                    vd.violation(f"{rc['prog']}-badput-" + "".join(str(s[0]) for s in rc["sched"])[:60],
+                                 describe(rc, "a Put whose streamed bytes do not match its declared hash / length did not leave the tree and replies as if it had never been sent"),
+                                 {"kind": "hub-history", "record": rc})
                 if rc["torn_steps"]:
                     key = f"{rc['prog']}-torn-" + "".join(str(s[0]) for s in rc["sched"])[:60]
                     vd.violation(key, describe(rc, f"a non-staging hub path held incomplete / foreign bytes after step {rc['torn_steps'][0]}"),
